@@ -11,10 +11,13 @@ def run(rep):
                 'k parts, state parts concatenate to the original, every original event exactly once under a non-negative '
                 'non-decreasing offset witness (found exhaustively by the harness, verified by TLC), re-based times non-negative, '
                 'chronological, part jumps = classifier(part events) and are jumps of the whole; trajectory parts are contiguous '
-                'non-overlapping ordered frame ranges (equal length when requested). Where the boundaries fall is not checked.')
+                'non-overlapping ordered frame ranges (equal length when requested); unless trimmed to equal length they follow one another without '
+                'a gap from frame 0 to the last or next-to-last frame of the source (every number of frames <= 130/400 x every number of parts <= 16/40). '
+                'Where the inner boundaries fall is not checked.')
     rep.assumptions = ['n_parts <= number of events (stated in the property) and <= frames-1 for trajectories',
                        'all frames of a trajectory are distinct (jitter), so a part matches exactly one frame range']
     sc.leg_m(rep, 'C19', [(5, 2, 1, 3)] if quick else [(7, 2, 1, 3), (5, 3, 1, 2)])
     sc.leg_b(rep, 'C19', 30 if quick else 300, 40 if quick else 60, 3 if quick else 4, 4 if quick else 5,
              list(gen.FAMILIES), ms=(0, 3, 6), ks=(1, 2, 3, 4, 7))
+    sc.split_sweep(rep, 130 if quick else 400, 16 if quick else 40)
     rep.exhaustive = True
